@@ -313,3 +313,13 @@ package lexer
 //@   loop 3 invariant 0 <= i && i % 2 == 0 && len(groups) == i / 2
 //@   loop 3 invariant i > 0 ==> groups[0] == l.data[match[0]:match[1]]
 //@   loop 3 decreases len(match) - i
+
+// ---------------------------------------------------------------------------------------------
+// text_scanner.go: the text/scanner-based lexer copies the scanner's position and stamps the filename.
+// The scanner itself (offsets, lines, columns) is trusted.
+// ---------------------------------------------------------------------------------------------
+
+//@ func (*textScannerLexer).Next [C04 C15]
+//@   requires t.scanner != nil
+//@   ensures result1 == nil ==> result0.Pos.Filename == t.filename
+//@   ensures result1 != nil ==> result1 == t.err && result0 == Token{}
